@@ -65,7 +65,7 @@ def make_isa(mn, mac, regs, pre):
 def meta(tier):
     q = tier == 'quick'
     return {
-        'rule': 'vocabularies: two categories varied at a time (mnemonics x macros with two register/predefined settings, registers x predefined '
+        'rule': 'every instruction-set definition shipped with the repository that loads (examples/ and test/config_files/, renamed to one language name) x 2 targets with every check; then: vocabularies: two categories varied at a time (mnemonics x macros with two register/predefined settings, registers x predefined '
                 'with two mnemonic/macro settings, single mnemonics x macro pairs; subset sizes one larger in the thorough tier) with every check; '
                 'thorough: in addition every choice of 1..2 mnemonics, <=1 macro, <=2 registers, <=1 predefined name (~46 000 vocabularies; a generation costs ~40 ms), judged on well-formedness, '
                 'placeholders and the category patterns; '
@@ -306,13 +306,69 @@ def inspect_sublime(root, vocab, context=True):
 
 # ---- generation ------------------------------------------------------------------------------------------------------
 
+def _write_isa(isa, root):
+    """isa: a definition as a dict (written as JSON) or as YAML text (written verbatim)"""
+    if isinstance(isa, str):
+        cfg = os.path.join(root, 'isa.yaml')
+        with open(cfg, 'w') as f:
+            f.write(isa)
+    else:
+        cfg = os.path.join(root, 'isa.json')
+        with open(cfg, 'w') as f:
+            json.dump(isa, f)
+    return cfg
+
+
+def real_definitions():
+    """The instruction-set definitions shipped with the repository (examples/ and test/config_files/) that the tree under test loads,
+    renamed to the language name the inspectors expect -> [(file name, YAML text, vocabulary)]"""
+    import glob
+    import yaml
+    out = []
+    for path in sorted(glob.glob(os.path.join(world.REPO, 'examples', '*', '*.yaml')) + glob.glob(os.path.join(world.REPO, 'examples', '*.yaml')) +
+                       glob.glob(os.path.join(world.REPO, 'test', 'config_files', '*.yaml'))):
+        try:
+            with open(path) as f:
+                d = yaml.safe_load(f)
+        except Exception:
+            continue
+        if not isinstance(d, dict) or not isinstance(d.get('instructions'), dict) or not isinstance(d.get('general'), dict):
+            continue
+        d['general']['identifier'] = {'name': 'vocab-lang', 'version': '1.2.3', 'extension': 'vasm'}
+        pre = []
+        for k in ('constants', 'data', 'memory_zones'):
+            for e in ((d.get('predefined') or {}).get(k) or []):
+                if isinstance(e, dict) and 'name' in e:
+                    pre.append(str(e['name']))
+        vocab = (tuple(str(m) for m in d['instructions']), tuple(str(m) for m in (d.get('macros') or {})),
+                 tuple(str(r) for r in (d['general'].get('registers') or ())), tuple(pre))
+        out.append((os.path.relpath(path, world.REPO), yaml.safe_dump(d), vocab))
+    return out
+
+
+def real_isas(acc, idx, n):
+    """Every shipped definition that loads: both targets, all checks (a definition the tree refuses to load is a don't-care)."""
+    for i, (name, text, vocab) in enumerate(real_definitions()):
+        if i % n != idx:
+            continue
+        for target in ('vscode', 'sublime'):
+            probs = examine(text, target, vocab, generate_inproc, context=True)
+            if probs and probs[0].startswith(('generator exited', 'generator failed')):
+                acc.count_eval(1, 'OK')
+                acc.dc(f'{name} is not loaded by this tree')
+                continue
+            acc.count_eval(1, 'OK' if not probs else 'PROBLEM')
+            if probs:
+                spec = {'target': target, 'definition': name, 'vocab': [list(v) for v in vocab]}
+                acc.violation([{'isa': text, 'target': target}], spec, f'{target} for {name}: {probs[0]}', [{'problems': probs[:5]}])
+            acc.judge(clause=target, nontrivial_distinct=True)
+
+
 def generate_inproc(isa, target, root, verbose=0):
     world._load()
     from bespokeasm.configgen.vscode import VSCodeConfigGenerator
     from bespokeasm.configgen.sublime import SublimeConfigGenerator
-    cfg = os.path.join(root, 'isa.json')
-    with open(cfg, 'w') as f:
-        json.dump(isa, f)
+    cfg = _write_isa(isa, root)
     out = os.path.join(root, 'out')
     os.makedirs(out, exist_ok=True)
     world.reset_globals()
@@ -325,9 +381,7 @@ def generate_inproc(isa, target, root, verbose=0):
 
 
 def generate_cli(isa, target, root, verbose=0):
-    cfg = os.path.join(root, 'isa.json')
-    with open(cfg, 'w') as f:
-        json.dump(isa, f)
+    cfg = _write_isa(isa, root)
     out = os.path.join(root, 'out')
     os.makedirs(out, exist_ok=True)
     env = {k: v for k, v in os.environ.items() if not k.startswith('BESPOKEASM_')}
@@ -363,6 +417,7 @@ def examine(isa, target, vocab, gen, before=None, context=True, verbose=0):
 def shard(acc, tier, idx, n):
     q = tier == 'quick'
     ctr = 0
+    real_isas(acc, idx, n)
     # the generators fill each category pattern independently, so two categories are varied at a time; these vocabularies get every check,
     # including whole statement lines through the grammar interpreter and regeneration over an earlier revision
     k = 0 if q else 1
